@@ -135,30 +135,69 @@ func ruleErr15(c *Ctx) {
 				// readers through a slot, writers of a slot
 				var readers []ssa.Instruction
 				writers := map[*ssa.Function][]ssa.Instruction{}
-				for _, f := range fns {
+				inCell := func(v ssa.Value) bool { return e19CellOf(v) == cell }
+				var collect func(f *ssa.Function, isColl func(ssa.Value) bool, depth int)
+				collect = func(f *ssa.Function, isColl func(ssa.Value) bool, depth int) {
 					for _, fb := range f.Blocks {
 						for _, fi := range fb.Instrs {
 							switch x := fi.(type) {
-							case *ssa.Store:
-								if ia, ok := x.Addr.(*ssa.IndexAddr); ok && e19CellOf(ia.X) == cell {
-									writers[f] = append(writers[f], x)
-								}
 							case *ssa.IndexAddr:
 								// an index that is shown < len(element) (range loops) never touches a nil slot
-								if e19ElemOf(x.X, cell) && !pr.le(x.Index, e19Term{base: x.X}, true, core.FactsAt(x.Block()), x, 0) {
+								if e19ElemOf(x.X, isColl) && !pr.le(x.Index, e19Term{base: x.X}, true, core.FactsAt(x.Block()), x, 0) {
 									readers = append(readers, x)
 								}
 							case *ssa.Index:
-								if e19ElemOf(x.X, cell) && !pr.le(x.Index, e19Term{base: x.X}, true, core.FactsAt(x.Block()), x, 0) {
+								if e19ElemOf(x.X, isColl) && !pr.le(x.Index, e19Term{base: x.X}, true, core.FactsAt(x.Block()), x, 0) {
 									readers = append(readers, x)
 								}
 							case *ssa.FieldAddr:
-								if kind == "pointer" && e19ElemOf(x.X, cell) {
+								if kind == "pointer" && e19ElemOf(x.X, isColl) {
 									readers = append(readers, x)
+								}
+							case *ssa.Call:
+								// the collection (or one of its slots) handed to a helper: the helper's
+								// parameter stands for it
+								callee := x.Common().StaticCallee()
+								if callee == nil || callee.Blocks == nil || depth >= 3 || !c.P.InPkg(callee, "lib/query", core.ControlPkg) || len(x.Common().Args) != len(callee.Params) {
+									continue
+								}
+								for i, a := range x.Common().Args {
+									prm := callee.Params[i]
+									if isColl(a) {
+										collect(callee, func(v ssa.Value) bool { return v == prm }, depth+1)
+									} else if e19ElemOf(a, isColl) {
+										// a single slot passed on: indexing the parameter reads through the slot
+										for _, pb := range callee.Blocks {
+											for _, pi := range pb.Instrs {
+												switch y := pi.(type) {
+												case *ssa.IndexAddr:
+													if y.X == prm && !pr.le(y.Index, e19Term{base: y.X}, true, core.FactsAt(y.Block()), y, 0) {
+														readers = append(readers, y)
+													}
+												case *ssa.Index:
+													if y.X == prm && !pr.le(y.Index, e19Term{base: y.X}, true, core.FactsAt(y.Block()), y, 0) {
+														readers = append(readers, y)
+													}
+												}
+											}
+										}
+									}
 								}
 							}
 						}
 					}
+				}
+				for _, f := range fns {
+					for _, fb := range f.Blocks {
+						for _, fi := range fb.Instrs {
+							if x, ok := fi.(*ssa.Store); ok {
+								if ia, ok := x.Addr.(*ssa.IndexAddr); ok && e19CellOf(ia.X) == cell {
+									writers[f] = append(writers[f], x)
+								}
+							}
+						}
+					}
+					collect(f, inCell, 0)
 				}
 				if len(readers) == 0 {
 					continue
@@ -198,22 +237,23 @@ func ruleErr15(c *Ctx) {
 }
 
 // e19ElemOf: v is an element loaded from the slice held by cell (xs[i] or the range element).
-func e19ElemOf(v ssa.Value, cell ssa.Value) bool {
-	for _, o := range core.Origins(v, false) {
+func e19ElemOf(v ssa.Value, isColl func(ssa.Value) bool) bool {
+	os := core.Origins(v, false)
+	if len(os) == 0 {
+		return false
+	}
+	for _, o := range os {
 		ld, ok := o.(*ssa.UnOp)
 		if !ok || ld.Op != token.MUL {
 			return false
 		}
 		ia, ok := ld.X.(*ssa.IndexAddr)
-		if !ok || e19CellOf(ia.X) != cell {
+		if !ok || !isColl(ia.X) {
 			return false
 		}
 	}
-	if len(core.Origins(v, false)) == 0 {
-		return false
-	}
 	// a slot that the reading function filled itself just before (xs[k] = make(...); xs[k][i] = …) is not a worker's slot
-	for _, o := range core.Origins(v, false) {
+	for _, o := range os {
 		ld := o.(*ssa.UnOp)
 		ia := ld.X.(*ssa.IndexAddr)
 		own := false
@@ -224,7 +264,7 @@ func e19ElemOf(v ssa.Value, cell ssa.Value) bool {
 					continue
 				}
 				sia, ok := st.Addr.(*ssa.IndexAddr)
-				if ok && e19CellOf(sia.X) == cell && core.SameVal(sia.Index, ia.Index) && core.Dominates(st, ld) {
+				if ok && isColl(sia.X) && core.SameVal(sia.Index, ia.Index) && core.Dominates(st, ld) {
 					own = true
 				}
 			}
